@@ -1427,14 +1427,26 @@ class ComponentSpecification(experiment.model.interface.InternalRepresentationAt
                 arguments, self.identification.stageIndex,
                 comp_ids, all_references)
 
-            for i, d in enumerate(datarefs):
-                original_reference = None
-                if d.absoluteReference in all_references:
-                    original_reference = d.absoluteReference
-                elif d.relativeReference in all_references:
-                    original_reference = d.relativeReference
+            # VV: The relative spelling of a reference carries no stage index: it belongs to the producer in the stage of
+            # this component and, when no reference points there, to the producer in the lowest stage (same rule as
+            # resolveArguments). Both spellings of a reference may appear in the arguments, replace every one of them.
+            own_stage = self.identification.stageIndex
+            relative_owner = {}  # type: Dict[str, DataReference]
+            for d in datarefs:
+                rivals = [relative_owner.get(d.relativeReference), d]
+                relative_owner[d.relativeReference] = min(
+                    [r for r in rivals if r is not None],
+                    key=lambda r: (r.stageIndex != own_stage, r.stageIndex if r.stageIndex is not None else -1))
 
-                if original_reference is None:
+            for i, d in enumerate(datarefs):
+                original_references = []
+                if d.absoluteReference in all_references:
+                    original_references.append(d.absoluteReference)
+                if d.relativeReference in all_references and relative_owner[d.relativeReference] is d \
+                        and d.relativeReference not in original_references:
+                    original_references.append(d.relativeReference)
+
+                if not original_references:
                     # VV: the reference is not present in the arguments string, this is fine for methods such as
                     # copy, link, extract, skip replacing it
                     continue
@@ -1456,8 +1468,9 @@ class ComponentSpecification(experiment.model.interface.InternalRepresentationAt
                 replacement = ':'.join((replacement, d.method))
                 # VV: only replace whole references: `ab:ref` (the relative form of stage1.ab:ref) must not be replaced
                 # inside `stage0.ab:ref` - the two references have the same length so their order is arbitrary
-                pattern = experiment.model.frontends.flowir.pattern_whole_reference(original_reference)
-                arguments = pattern.sub(lambda m, replacement=replacement: replacement, arguments)
+                for original_reference in original_references:
+                    pattern = experiment.model.frontends.flowir.pattern_whole_reference(original_reference)
+                    arguments = pattern.sub(lambda m, replacement=replacement: replacement, arguments)
 
             # VV: Only a replica carries a suffix (its replica index) on top of the name of its blueprint. A component
             #     which exists under its own name in the unreplicated FlowIR (e.g. `step2`) is its own blueprint
